@@ -599,6 +599,19 @@ clock within the line), reported colours"
             cases.push(Case { m128, ops });
         }
     }
+    // exact counts around the sizes an eight-bit or ten-bit change counter wraps at, every write above the bottom blanking
+    for m128 in [false, true] {
+        for n in [255usize, 256, 257, 512, 768, 1024] {
+            let mut ops = vec![Op::Frame];
+            let gap = 50000 / n;
+            for k in 0..n {
+                ops.push(Op::SetClk(200 + k * gap));
+                ops.push(Op::Out(0x00FE, [2u8, 6, 1, 5, 3, 7, 0][k % 7]));
+            }
+            ops.extend_from_slice(&[Op::Frame, Op::Frame]);
+            cases.push(Case { m128, ops });
+        }
+    }
     let n_cases = o.n(90, 9000) as usize;
     for i in 0..n_cases {
         let mut r = rng.fork();
